@@ -212,7 +212,7 @@ Definition gen_instopt_ops (sub:ops) : ops := mkops
   (fun v_term => (o_publish_axiom sub v_term))
   (fun v_term => (o_publish_claim sub v_term)).
 
-(* optimizing_interpreters.py:42  MemoizingInterpreter.pattern; sub_stateful = isinstance(self.sub_interpreter, StatefulInterpreter),
+(* optimizing_interpreters.py:44  MemoizingInterpreter.pattern; sub_stateful = isinstance(self.sub_interpreter, StatefulInterpreter),
    inS = membership in self._patterns_for_memoization, rt_mem = self.sub_interpreter.memory,
    super_pattern = super().pattern(p) *)
 Definition gen_memo_pattern (sub_stateful:bool) (inS:pat -> bool) (self_ops:ops) (v_p:pat) (super_pattern:M pat) : M pat :=
